@@ -154,6 +154,10 @@ def apply_edit(model, w):
         if f is None:
             return None, None
         old, new = m.group(1), m.group(1) + '__renamed'
+        ix = int(m.group(3))
+        if ix >= len(f['statements']) or 'expr' not in f['statements'][ix] or f['statements'][ix]['expr'].get('name') != old:
+            # the "variable" the warning names is not assigned where it points (e.g. it is the name of a function statement)
+            return None, 'bad-index'
         for st in f['statements']:
             if 'expr' in st and st['expr'].get('name') == old:
                 st['expr']['name'] = new
@@ -339,7 +343,8 @@ def run_models(spec, acc, api):
             name = f'structured{i}'
         else:
             # variable names are arbitrary strings at model level (the empty string and names with blanks are schema-valid)
-            stmts = rand_stmts(rnd, rnd.randint(1, 30), ['n', 'm', 'c'] if rnd.random() < 0.7 else ['n', '', 'c', 'x y', '0'], False)
+            # (30 %: function statements nested inside function bodies - schema-valid, they bind GLOBAL functions when executed)
+            stmts = rand_stmts(rnd, rnd.randint(1, 30), ['n', 'm', 'c'] if rnd.random() < 0.7 else ['n', '', 'c', 'x y', '0'], False, nested=rnd.random() < 0.3)
             if rnd.random() < 0.3:
                 for st in stmts:
                     if 'function' in st and st['function'].get('args') and rnd.random() < 0.5:
